@@ -25,5 +25,5 @@ for d in sorted(glob.glob(os.path.join(V, "seeded", pat))):
         else:
             res.append(f"{p} (no output)")
     mech = m.get("mechanism", "").replace("|", "/")
-    mech = mech[:200] + ("…" if len(mech) > 200 else "")
+    mech = mech[:int(os.environ.get("MECH_LEN","200"))] + ("…" if len(mech) > int(os.environ.get("MECH_LEN","200")) else "")
     print(f"| {name} | {mech} | {'; '.join(res)} |")
